@@ -520,3 +520,63 @@ T("C04", "twin-unmask-empty-tail-is-empty-payload", F, _R_MASK, "               
 T("C04", "twin-unmask-empty-tail-passed-as-tail", F, _R_MASK, "                key, masked = data[:4], data[4:]\n                if masked:\n                    masked = xor(masked, key)\n                data = masked\n")
 T("C04", "twin-unmask-length-guard-else-empty", F, _R_MASK, _guarded("len(data) > 4", _R_MASK) + "                else:\n                    data = b\"\"\n")
 T("C04", "twin-unmask-nothing-to-do-for-empty-blob", F, _R_MASK, "                if not data:\n                    continue\n" + _R_MASK)
+
+# ------------------------------------------------------------------------------------------------ R2: codec spellings / alphabets
+# The pair is judged on (codec family, direction, alphabet), not on the name of the library function: the documented aliases of
+# the base64 codecs and the netbios offset parameter are other spellings of the same wire format.
+_T_B64URL = "                data = base64.urlsafe_b64encode(data)\n"
+_R_NBU = "            elif step == \"netbiosu\":\n                data = netbios_decode(data)\n"
+_IMPORT_B64 = "import base64\n"
+_CLS_DOC_ANCHOR = "class HttpDataTransform:\n"
+
+
+def _nbu(line):
+    return "            elif step == \"netbiosu\":\n" + line
+
+
+T("C04", "twin-netbios-lower-alphabet-by-offset-keyword", F, _T_NB, "                data = netbios_encode(data, offset=0x61)\n")
+T("C04", "twin-netbios-lower-alphabet-by-offset-positional", F, _T_NB, "                data = netbios_encode(data, ord(\"a\"))\n")
+T("C04", "twin-netbios-lower-of-explicit-default-offset", F, _T_NB, "                data = netbios_encode(data, offset=0x41).lower()\n")
+T("C04", "twin-netbios-offset-then-idempotent-lower", F, _T_NB, "                data = netbios_encode(data, 0x61).lower()\n")
+T("C04", "twin-netbiosu-no-op-upper-dropped", F, _T_NBU, "                data = netbios_encode(data)\n")
+T("C04", "twin-netbiosu-explicit-default-offset", F, _T_NBU, "                data = netbios_encode(data, offset=0x41)\n")
+T("C04", "twin-netbios-decode-lower-alphabet-by-offset", F, _R_NB, "                data = netbios_decode(data, offset=0x61)\n")
+T("C04", "twin-netbios-decode-lowered-input-lower-offset", F, _R_NB, "                data = netbios_decode(data.lower(), 0x61)\n")
+T("C04", "twin-netbiosu-decode-idempotent-upper", F, _R_NBU, _nbu("                data = netbios_decode(data.upper(), offset=0x41)\n"))
+T("C04", "twin-netbios-offset-class-constant", F, "", "",
+  edits=[(F, _T_NB, "                data = netbios_encode(data, offset=self._LOWER_A)\n"), (F, _CLS_DOC_ANCHOR, _CLS_DOC_ANCHOR + "    _LOWER_A = 0x61\n\n")])
+M("C04", "netbios-offset-upper-alphabet", F, _T_NB, "                data = netbios_encode(data, offset=0x41)\n", "C04.R2")
+M("C04", "netbios-offset-off-by-one", F, _T_NB, "                data = netbios_encode(data, offset=0x60)\n", "C04.R2")
+M("C04", "netbios-lower-offset-then-upper", F, _T_NB, "                data = netbios_encode(data, offset=0x61).upper()\n", "C04.R2")
+M("C04", "netbiosu-lower-offset", F, _T_NBU, "                data = netbios_encode(data, offset=0x61)\n", "C04.R2")
+M("C04", "netbiosu-default-offset-lowered", F, _T_NBU, "                data = netbios_encode(data).lower()\n", "C04.R2")
+M("C04", "netbios-decode-uppercased-input-lower-offset", F, _R_NB, "                data = netbios_decode(data.upper(), offset=0x61)\n", "C04.R2")
+M("C04", "netbiosu-decode-lower-offset", F, _R_NBU, _nbu("                data = netbios_decode(data, 0x61)\n"), "C04.R2")
+M("C04", "netbios-offset-class-constant-upper", F, "", "", "C04.R2",
+  edits=[(F, _T_NB, "                data = netbios_encode(data, offset=self._LOWER_A)\n"), (F, _CLS_DOC_ANCHOR, _CLS_DOC_ANCHOR + "    _LOWER_A = 0x41\n\n")])
+T("C04", "twin-base64-standard-aliases", F, "", "",
+  edits=[(F, _T_B64, "                data = base64.standard_b64encode(data)\n"), (F, _R_B64, "                data = base64.standard_b64decode(data + b\"==\")\n")])
+T("C04", "twin-base64-explicit-default-options", F, "", "",
+  edits=[(F, _T_B64, "                data = base64.b64encode(data, altchars=None)\n"), (F, _R_B64, "                data = base64.b64decode(data + b\"==\", altchars=None, validate=False)\n")])
+T("C04", "twin-base64-explicit-standard-altchars", F, "", "",
+  edits=[(F, _T_B64, "                data = base64.b64encode(data, b\"+/\")\n"), (F, _R_B64, "                data = base64.b64decode(data + b\"==\", b\"+/\")\n")])
+T("C04", "twin-base64url-altchars-keyword", F, "", "",
+  edits=[(F, _T_B64URL, "                data = base64.b64encode(data, altchars=b\"-_\")\n"), (F, _R_B64URL, "                data = base64.b64decode(data + b\"==\", altchars=b\"-_\")\n")])
+T("C04", "twin-base64url-altchars-positional-one-side", F, _R_B64URL, "                data = base64.b64decode(data + b\"==\", b\"-\" + b\"_\")\n")
+T("C04", "twin-base64-binascii", F, "", "",
+  edits=[(F, _IMPORT_B64, "import base64\nimport binascii\n"), (F, _T_B64, "                data = binascii.b2a_base64(data, newline=False)\n"),
+         (F, _R_B64, "                data = binascii.a2b_base64(data + b\"==\")\n")])
+T("C04", "twin-base64-imported-names", F, "", "",
+  edits=[(F, _IMPORT_B64, "import base64\nfrom base64 import standard_b64encode as _b64enc\n"), (F, _T_B64, "                data = _b64enc(data)\n")])
+M("C04", "base64-encoded-with-urlsafe-altchars", F, _T_B64, "                data = base64.b64encode(data, altchars=b\"-_\")\n", "C04.R2")
+M("C04", "base64url-encoded-with-standard-alias", F, _T_B64URL, "                data = base64.standard_b64encode(data)\n", "C04.R2")
+M("C04", "base64url-decoded-with-standard-altchars", F, _R_B64URL, "                data = base64.b64decode(data + b\"==\", altchars=b\"+/\")\n", "C04.R2")
+M("C04", "base64url-altchars-dot-for-underscore", F, "", "", "C04.R2",
+  edits=[(F, _T_B64URL, "                data = base64.b64encode(data, altchars=b\"-.\")\n"), (F, _R_B64URL, "                data = base64.b64decode(data + b\"==\", altchars=b\"-.\")\n")])
+M("C04", "base64url-decode-altchars-dropped", F, _R_B64URL, "                data = base64.b64decode(data + b\"==\", validate=False)\n", "C04.R2")
+M("C04", "base64-binascii-trailing-newline", F, "", "", "C04.R2",
+  edits=[(F, _IMPORT_B64, "import base64\nimport binascii\n"), (F, _T_B64, "                data = binascii.b2a_base64(data)\n")])
+M("C04", "base64-replaced-by-base32", F, "", "", "C04.R2",
+  edits=[(F, _T_B64, "                data = base64.b32encode(data)\n"), (F, _R_B64, "                data = base64.b32decode(data + b\"==\")\n")])
+M("C04", "base64-mime-line-wrapping", F, _T_B64, "                data = base64.encodebytes(data)\n", "C04.R2")
+M("C04", "base64-padding-dropped-with-alias", F, _R_B64, "                data = base64.standard_b64decode(data)\n", "C04.R2")
